@@ -21,7 +21,17 @@ F = {
               [("place", "lamp", "small-lamp", B("+", V("n"), I(10)), I(20), None),
                ("prop", "lamp", "enable", B(">", V("s"), V("n")))], B("+", V("s"), I(0))),
     "nested": ("func", "f", [("Signal", "s"), ("int", "n")], [], B("+", ("call", "g", [V("s")]), V("n"))),
+    # round 5: three levels of calls, a parameter read three times, compile-time arithmetic on the int parameter,
+    # a local int, a dead local, the same helper called twice inside one body
+    "deep": ("func", "f", [("Signal", "s"), ("int", "n")], [], B("-", ("call", "g2", [V("s"), V("n")]), ("call", "g", [V("s")]))),
+    "reuse": ("func", "f", [("Signal", "s"), ("int", "n")], [], B("+", B("*", V("s"), V("s")), B("-", V("s"), V("n")))),
+    "int-arith": ("func", "f", [("Signal", "s"), ("int", "n")], [], B("+", V("s"), ("paren", B("-", B("*", V("n"), I(2)), I(1))))),
+    "local-int": ("func", "f", [("Signal", "s"), ("int", "n")], [("decl", "int", "m", B("+", V("n"), I(1)))], B("*", V("s"), V("m"))),
+    "dead-local": ("func", "f", [("Signal", "s"), ("int", "n")], [("decl", "Signal", "unused", B("*", V("s"), I(9)))], B("+", V("s"), V("n"))),
+    "helper-twice": ("func", "f", [("Signal", "s"), ("int", "n")], [], B("+", ("call", "g", [V("s")]), ("call", "g", [B("+", V("s"), V("n"))]))),
 }
+G2 = ("func", "g2", [("Signal", "p"), ("int", "k")], [("decl", "Signal", "w2", ("call", "g", [B("+", V("p"), V("k"))]))], B("*", V("w2"), I(2)))
+NEEDS_G = ("nested", "deep", "helper-twice")
 # parameter names that are also names of the caller: arguments must be evaluated in the CALLER's scope
 SWAP = [
     ("func", "sub2", [("Signal", "a"), ("Signal", "c")], [], B("-", B("*", V("a"), I(3)), V("c"))),
@@ -49,7 +59,7 @@ def mk(fname, argname, ctx):
     f = F[fname]
     sargs = ARGS[argname]
     pre = [("decl", "int", "kk", I(5)), ("decl", "Signal", "x0", B("+", V("a"), I(100)))]
-    body = list(pre) + ([G] if fname == "nested" else []) + [f]
+    body = list(pre) + ([G] if fname in NEEDS_G else []) + ([G2] if fname == "deep" else []) + [f]
     outs = ["x0"]
     if ctx == "once":
         body.append(("decl", "Signal", "r1", ("call", "f", list(sargs))))
@@ -69,7 +79,7 @@ def mk(fname, argname, ctx):
         body.append(("for", "j", ("range", 0, 2, None),
                      [("place", "e", "small-lamp", B("+", V("j"), I(30)), I(24), None),
                       ("prop", "e", "enable", B(">", ("call", "f", [sargs[0], V("j")]), I(4)))]))
-    if argname == "typed,signal" and fname in ("place", "typeof"):
+    if argname == "typed,signal" and fname in ("place", "typeof", "local-int"):
         return None     # a Signal bound to an int parameter cannot be a coordinate / projection value
     if fname == "typeof" and sargs[0][0] != "var":
         return None     # `.type` of a parameter bound to an expression has no inlined form
